@@ -106,6 +106,241 @@ if queue_maxsize is None:
 if insert_awaits is None:
     die("insert_scan_result")
 
+# --- concurrency anchors: what makes "exchange ends / mutex released / row queued / state updated" one atomic step ------
+def awaited(node):
+    return [ast.unparse(n.value.func) if isinstance(n.value, ast.Call) else ast.unparse(n.value)
+            for n in ast.walk(node) if isinstance(n, ast.Await)]
+
+
+def func(tree_, name, cls=None):
+    for node in ast.walk(tree_):
+        if cls is not None:
+            if isinstance(node, ast.ClassDef) and node.name == cls:
+                for n in node.body:
+                    if isinstance(n, (ast.AsyncFunctionDef, ast.FunctionDef)) and n.name == name:
+                        return n
+        elif isinstance(node, (ast.AsyncFunctionDef, ast.FunctionDef)) and node.name == name:
+            return node
+    die(f"{cls or ''}.{name}")
+
+
+def ordered_awaits(stmts):
+    """awaited calls in source order"""
+    out = []
+    for st in stmts:
+        for n in ast.walk(st):
+            if isinstance(n, ast.Await):
+                out.append((n.lineno, n.col_offset, ast.unparse(n.value.func) if isinstance(n.value, ast.Call) else ast.unparse(n.value)))
+    return [x[2] for x in sorted(out)]
+
+
+finally_awaits = ordered_awaits(fin)
+upd = func(tree, "update_state", "ECU")
+update_state_awaits = awaited(upd)
+# `send_time = ...` is taken before the try (before the mutex is requested)
+send_before = False
+for n in req.body:
+    if isinstance(n, ast.Try):
+        break
+    if isinstance(n, ast.Assign) and ast.unparse(n.targets[0]) == "send_time":
+        send_before = True
+try_awaits = ordered_awaits(trys[0].body)
+
+c_src = (REPO / "src/gallia/services/uds/core/client.py").read_text()
+ctree = ast.parse(c_src)
+creq = func(ctree, "_request", "UDSClient")
+cbody = [n for n in creq.body if not (isinstance(n, ast.Expr) and isinstance(n.value, ast.Constant))]
+request_under_mutex = (len(cbody) == 1 and isinstance(cbody[0], ast.AsyncWith)
+                       and [ast.unparse(i.context_expr) for i in cbody[0].items] == ["self.mutex"]
+                       and len(cbody[0].body) == 1
+                       and ast.unparse(cbody[0].body[0]) == "return await self.request_unsafe(request, config)")
+mutex_is_asyncio_lock = any(isinstance(n, ast.Assign) and ast.unparse(n.targets[0]) == "self.mutex"
+                            and ast.unparse(n.value) == "asyncio.Lock()" for n in ast.walk(func(ctree, "__init__", "UDSClient")))
+
+# --- the writer task -----------------------------------------------------------------------------------------------
+wf = func(htree, "_executor_func", "DBHandler")
+writer_awaits = ordered_awaits(wf.body)
+writer_handler = None      # calls made in the `except aiosqlite.OperationalError` handler
+writer_in_loop = False     # that handler belongs to a try inside a `while True` nested in the per-row try/finally
+execute_guard = ""
+task_done_in_finally = False
+for node in ast.walk(wf):
+    if isinstance(node, ast.Try):
+        for h in node.handlers:
+            if h.type is not None and ast.unparse(h.type).endswith("OperationalError"):
+                writer_handler = [ast.unparse(n.func) for st in h.body for n in ast.walk(st) if isinstance(n, ast.Call)]
+                writer_handler += [type(st).__name__.lower() for st in h.body if isinstance(st, (ast.Break, ast.Return, ast.Raise, ast.Continue))]
+                tr_ok = node
+        if node.finalbody and "task_done" in "\n".join(ast.unparse(n) for n in node.finalbody):
+            task_done_in_finally = True
+            for n in ast.walk(node):
+                if isinstance(n, ast.While) and ast.unparse(n.test) == "True":
+                    for m in ast.walk(n):
+                        if isinstance(m, ast.Try) and any(h.type is not None and ast.unparse(h.type).endswith("OperationalError") for h in m.handlers):
+                            writer_in_loop = True
+                            # the try body ends the loop only after the commit
+                            last = m.body[-1]
+                            if not isinstance(last, ast.Break) or "commit" not in ast.unparse(m.body[-2]):
+                                writer_in_loop = False
+for node in ast.walk(wf):
+    if isinstance(node, ast.If) and any("self.connection.execute" in ast.unparse(n) for n in node.body):
+        execute_guard = ast.unparse(node.test)
+        steps = ["execute" if "self.connection.execute" in ast.unparse(n) else ast.unparse(n) for n in node.body]
+        execute_guard += " / " + "; ".join(steps)
+if writer_handler is None:
+    die("_executor_func: except aiosqlite.OperationalError")
+
+
+# --- the API calls of the handler: awaited statements, assignments to self.*, assertions, in source order ------------
+def api_steps(name):
+    f = func(htree, name, "DBHandler")
+    out = []
+    for st in f.body:
+        if isinstance(st, ast.Assert):
+            t = ast.unparse(st.test)
+            if t.startswith("self.") and t.endswith(" is not None"):
+                out.append("assert:" + t[5:-12])
+            else:
+                out.append("assert:?" + t)
+            continue
+        items = []
+        for n in ast.walk(st):
+            if isinstance(n, ast.Await) and isinstance(n.value, ast.Call):
+                fn = ast.unparse(n.value.func)
+                if fn == "self.connection.execute":
+                    arg = n.value.args[0]
+                    sql = None
+                    if isinstance(arg, ast.Constant):
+                        sql = arg.value
+                    elif isinstance(arg, ast.Name):
+                        for m in ast.walk(f):
+                            if isinstance(m, ast.Assign) and ast.unparse(m.targets[0]) == arg.id and m.lineno < n.lineno:
+                                try:
+                                    sql = ast.literal_eval(m.value)
+                                except Exception:
+                                    sql = ast.unparse(m.value)
+                    words = (sql or "?").split()
+                    verb = words[0].upper()
+                    if verb == "INSERT":
+                        k = [w.upper() for w in words].index("INTO")
+                        tbl = words[k + 1].split("(")[0]
+                        verb = "INSERT-OR-IGNORE" if words[1].upper() == "OR" else "INSERT"
+                    elif verb == "UPDATE":
+                        tbl = words[1]
+                    else:
+                        tbl = "?"
+                    items.append((n.lineno, n.col_offset, f"execute:{verb}:{tbl}"))
+                elif fn == "self.connection.commit":
+                    items.append((n.lineno, n.col_offset, "commit"))
+                elif fn == "self._execute_queue.put":
+                    items.append((n.lineno, n.col_offset, "put"))
+                else:
+                    items.append((n.lineno, n.col_offset, "await:" + fn))
+            if isinstance(n, ast.Assign) and ast.unparse(n.targets[0]).startswith("self."):
+                items.append((n.lineno, n.col_offset + 10000, "set:" + ast.unparse(n.targets[0])[5:] + "=" + ast.unparse(n.value).replace("cursor.", "")))
+        out += [x[2] for x in sorted(items)]
+    return out
+
+
+API = ["insert_run_meta", "complete_run_meta", "insert_scan_run", "insert_scan_run_properties_pre", "complete_scan_run",
+       "insert_discovery_run", "insert_discovery_result", "insert_scan_result", "insert_session_transition"]
+api = [(n, api_steps(n)) for n in API]
+# the run column of the queued row / of the session_transition row
+isr = func(htree, "insert_scan_result", "DBHandler")
+qp_first = ""
+for n in ast.walk(isr):
+    if isinstance(n, ast.Assign) and ast.unparse(n.targets[0]) == "query_parameter" and isinstance(n.value, ast.Tuple):
+        qp_first = ast.unparse(n.value.elts[0])
+ist = func(htree, "insert_session_transition", "DBHandler")
+st_first = ""
+for n in ast.walk(ist):
+    if isinstance(n, ast.Assign) and ast.unparse(n.targets[0]) == "parameters" and isinstance(n.value, ast.Tuple):
+        st_first = ast.unparse(n.value.elts[0])
+
+# --- keys of the live schema -----------------------------------------------------------------------------------------
+import sqlite3  # noqa: E402
+import gallia.db.handler as HND  # noqa: E402
+
+con = sqlite3.connect(":memory:")
+con.executescript(HND.DB_SCHEMA)
+fks = []
+for (tname,) in con.execute("SELECT name FROM sqlite_master WHERE type='table' ORDER BY name").fetchall():
+    tcols = {r[1]: r for r in con.execute(f"PRAGMA table_info({tname})").fetchall()}
+    for r in con.execute(f"PRAGMA foreign_key_list({tname})").fetchall():
+        # (id, seq, table, from, to, on_update, on_delete, match)
+        fks.append((tname, r[3], r[2], r[4], bool(tcols[r[3]][3])))
+fks.sort()
+pks = []
+for (tname,) in con.execute("SELECT name FROM sqlite_master WHERE type='table' ORDER BY name").fetchall():
+    for r in con.execute(f"PRAGMA table_info({tname})").fetchall():
+        if r[5]:
+            pks.append((tname, r[1], r[2].lower()))
+uniques = []
+for (tname,) in con.execute("SELECT name FROM sqlite_master WHERE type='table' ORDER BY name").fetchall():
+    for ix in con.execute(f"PRAGMA index_list({tname})").fetchall():
+        if ix[2]:
+            uniques.append((tname, ",".join(c[2] for c in con.execute(f"PRAGMA index_info({ix[1]})").fetchall())))
+con.close()
+conn_f = func(htree, "connect", "DBHandler")
+pragmas = [ast.literal_eval(n.value.args[0]) for n in ast.walk(conn_f)
+           if isinstance(n, ast.Await) and isinstance(n.value, ast.Call) and ast.unparse(n.value.func) == "self.connection.execute"
+           and isinstance(n.value.args[0], ast.Constant) and str(n.value.args[0].value).startswith("PRAGMA")]
+disc = func(htree, "disconnect", "DBHandler")
+disconnect_awaits = ordered_awaits(disc.body)
+
+
+def lean_list(xs):
+    return "[" + ", ".join(lean_str(x) for x in xs) + "]"
+
+
+# --- the scanner-level implicit-logging switch (src/gallia/command/uds.py) -------------------------------------------------
+u_src = (REPO / "src/gallia/command/uds.py").read_text()
+utree = ast.parse(u_src)
+
+
+def ordered_calls(fn):
+    """calls and the assignment to self.ecu of a function body, in source order"""
+    items = []
+    for n in ast.walk(fn):
+        if isinstance(n, ast.Call):
+            items.append((n.lineno, n.col_offset, ast.unparse(n.func)))
+        if isinstance(n, ast.Assign) and ast.unparse(n.targets[0]) == "self.ecu":
+            items.append((n.lineno, -1, "=self.ecu"))
+    return [x[2] for x in sorted(items)]
+
+
+TOK = {"=self.ecu": "create-ecu", "self._apply_implicit_logging_setting": "apply", "super().setup": "super-setup",
+       "self.db_handler.insert_scan_run": "insert_scan_run", "self.db_handler.insert_scan_run_properties_pre": "properties_pre",
+       "self.db_handler.complete_scan_run": "complete_scan_run", "self.ecu.connect": "connect"}
+setup_fn = func(utree, "setup", "UDSScanner")
+setup_events = []
+for c in ordered_calls(setup_fn):
+    if c in TOK:
+        setup_events.append(TOK[c])
+    elif c.startswith("self.ecu.") and c != "self.ecu.connect":
+        setup_events.append("request")     # ecu_reset, set_session, wait_for_ecu, start_cyclic_tester_present, properties
+if "create-ecu" not in setup_events:
+    die("UDSScanner.setup: self.ecu = ...")
+setter = None
+for n in ast.walk(utree):
+    if isinstance(n, ast.ClassDef) and n.name == "UDSScanner":
+        for m in n.body:
+            if isinstance(m, ast.FunctionDef) and m.name == "implicit_logging" and any(
+                    ast.unparse(d) == "implicit_logging.setter" for d in m.decorator_list):
+                setter = m
+if setter is None:
+    die("UDSScanner.implicit_logging setter")
+setter_body = [ast.unparse(x).replace("\n", " ").replace("    ", " ") for x in setter.body]
+apply_fn = func(utree, "_apply_implicit_logging_setting", "UDSScanner")
+apply_body = [ast.unparse(x) for x in apply_fn.body]
+b_src = (REPO / "src/gallia/command/base.py").read_text()
+btree = ast.parse(b_src)
+ep = [c for c in ordered_calls(func(btree, "entry_point", "BaseCommand")) if c in ("self._db_insert_run_meta", "self.run", "self._db_finish_run_meta")]
+ecu_default = None
+for n in ast.walk(func(tree, "__init__", "ECU")):
+    if isinstance(n, ast.Assign) and ast.unparse(n.targets[0]) == "self.implicit_logging":
+        ecu_default = ast.unparse(n.value)
+
 # --- attribute shapes ------------------------------------------------------------------------------------------------
 SH = {"i": ".int", "b": ".bool", "n": ".null", "s": ".str", "f": ".float", "y": ".bytes", "E": ".enum"}
 
@@ -170,6 +405,51 @@ def logBeforeUpdateState : Bool := {str(log_before_update).lower()}
 def guardedByImplicitSwitch : Bool := {str(guarded).lower()}
 def analyzeSelectsEmphasized : Bool := {str(analyze).lower()}
 def exceptLadder : List String := [{", ".join(lean_str(h) for h in handlers)}]
+
+/-- concurrency anchors (AST of the working tree): calls awaited in the `try` body and in the `finally` of `ECU._request`,
+    inside `ECU.update_state`; `send_time` is taken before the `try`; `UDSClient._request` is exactly
+    `async with self.mutex: return await self.request_unsafe(request, config)` and the mutex an `asyncio.Lock` -/
+def tryAwaits : List String := {lean_list(try_awaits)}
+def finallyAwaits : List String := {lean_list(finally_awaits)}
+def updateStateAwaits : List String := {lean_list(update_state_awaits)}
+def sendTimeBeforeTry : Bool := {str(send_before).lower()}
+def requestUnderMutex : Bool := {str(bool(request_under_mutex)).lower()}
+def mutexIsAsyncioLock : Bool := {str(bool(mutex_is_asyncio_lock)).lower()}
+
+/-- the writer task `_executor_func` (AST): awaited calls in source order; the calls made in the handler of
+    `aiosqlite.OperationalError`; that handler sits in a `while True` whose body ends with `commit(); break`; the guard of the
+    `execute` call; `task_done()` in the `finally` of the per-row `try` -/
+def writerAwaits : List String := {lean_list(writer_awaits)}
+def writerOnOperationalError : List String := {lean_list(writer_handler)}
+def writerRetriesInPlace : Bool := {str(bool(writer_in_loop)).lower()}
+def writerExecuteGuard : String := {lean_str(execute_guard)}
+def writerTaskDoneInFinally : Bool := {str(bool(task_done_in_finally)).lower()}
+def disconnectAwaits : List String := {lean_list(disconnect_awaits)}
+
+/-- the API calls of `DBHandler` (AST): assertions, awaited statements (verb, table), assignments to `self.*`, in order -/
+def apiSteps : List (String × List String) := [
+{(","+chr(10)).join("  (" + lean_str(n) + ", " + lean_list(st) + ")" for n, st in api)}
+]
+def scanResultRunColumn : String := {lean_str(qp_first)}
+def sessionTransitionRunColumn : String := {lean_str(st_first)}
+
+/-- keys of the live `DB_SCHEMA` (read back from sqlite): (table, column, referenced table, referenced column, NOT NULL),
+    primary keys, unique indexes; the PRAGMAs of `connect()` -/
+def foreignKeys : List (String × String × String × String × Bool) := [
+{(","+chr(10)).join("  (" + ", ".join(lean_str(x) for x in fk[:4]) + ", " + str(fk[4]).lower() + ")" for fk in fks)}
+]
+def primaryKeys : List (String × String × String) := [{", ".join("(" + ", ".join(lean_str(x) for x in pk) + ")" for pk in pks)}]
+def uniqueColumns : List (String × String) := [{", ".join("(" + ", ".join(lean_str(x) for x in u) + ")" for u in uniques)}]
+def connectPragmas : List String := {lean_list(pragmas)}
+
+/-- the scanner-level implicit-logging switch (AST): the statements of `UDSScanner.setup()` that matter, in source order
+    (`request` = any call on `self.ecu` that sends requests or starts the tester-present task); the body of the property setter
+    and of `_apply_implicit_logging_setting`; the default of the ECU object; the order inside `entry_point()` -/
+def setupEvents : List String := {lean_list(setup_events)}
+def setterBody : List String := {lean_list(setter_body)}
+def applyBody : List String := {lean_list(apply_body)}
+def ecuFlagDefault : String := {lean_str(ecu_default or "")}
+def entryPointOrder : List String := {lean_list(ep)}
 
 /-- (class, attribute, shape of the value) for every sample request / response object -/
 def attrShapes : List (String × String × Shape) := [
